@@ -6,6 +6,7 @@ import (
 	"encoding/binary"
 	"fmt"
 	"sort"
+	"strings"
 	"time"
 
 	"github.com/ava-labs/avalanchego/ids"
@@ -30,6 +31,7 @@ type focus struct {
 	tightUnits   float64 // probability of block unit limits near the block's consumption
 	bigCosts     float64 // probability of overflow-inducing unit costs
 	dupTx        float64
+	maxFeeFaults float64 // probability that a tx signs a max fee around (possibly below) the fee it will be charged
 	maxTxs       int
 }
 
@@ -301,6 +303,43 @@ func runBlock(r *simk.Run, f focus) *simk.Violation {
 			if err != nil {
 				return nil, g, err
 			}
+			if c.Bool(f.maxFeeFaults) {
+				// the max fee is fixed width, so the transaction's size (and units) do not depend on it
+				decl := map[string]state.Permissions{}
+				for _, a := range acts {
+					for _, d := range a.(*SimAction).Decl {
+						decl[string(d.Key)] |= d.Perm
+					}
+				}
+				decl[string(envBalKey(sp[g.Sponsor]))] |= state.Read | state.Write
+				if u, ok := refUnits(rules, tx, decl); ok {
+					if fee, ok := refFee(childPrices, u); ok {
+						mode := c.Intn(6)
+						if r.Avoid && mode < 3 {
+							mode = 3 + c.Intn(3)
+						}
+						switch mode {
+						case 0:
+							base.MaxFee = 0
+						case 1:
+							base.MaxFee = 1
+						case 2:
+							if fee > 0 {
+								base.MaxFee = fee - 1
+							}
+						case 3:
+							base.MaxFee = fee
+						case 4:
+							base.MaxFee = fee + 1
+						}
+						g.Note += fmt.Sprintf("maxfee=fee%+d ", int64(base.MaxFee-fee))
+						td = chain.NewTxData(base, acts)
+						if tx, err = td.Sign(sp[g.Sponsor]); err != nil {
+							return nil, g, err
+						}
+					}
+				}
+			}
 			if c.Bool(f.txFaults * 0.3) {
 				// signature over other bytes
 				other := chain.NewTxData(chain.Base{Timestamp: expiry + 1000, ChainID: chainID, MaxFee: 1}, acts)
@@ -525,6 +564,8 @@ func runBlock(r *simk.Run, f focus) *simk.Violation {
 		if (errA == nil) != ref.Valid {
 			if ref.Valid {
 				fail("valid-block-rejected", "the reference executes the block but Execute failed: %v\nsample=%s", errA, js(sample))
+			} else if strings.Contains(ref.Why, "exceeds its max fee") {
+				fail("block-charging-more-than-max-fee-accepted", "Execute accepted a block in which a transaction is charged more than the maximum fee it signed (%s)\nsample=%s", ref.Why, js(sample))
 			} else {
 				fail("invalid-block-accepted", "Execute accepted a block the reference rejects (%s)\nsample=%s", ref.Why, js(sample))
 			}
